@@ -97,6 +97,37 @@ pub fn run_history(cfg: &RunCfg, h: &History) -> (Outcome, RunInfo) {
             }
         }
     }
+    // pre-load (multi-page tables): plain multi-row INSERTs of distinct wide rows, mirrored in the model
+    let mut prefilled = false;
+    for (ti, spec) in h.tables.iter().enumerate() {
+        let rows = crate::hist::prefill_rows(spec);
+        if rows.is_empty() || ti >= model.tables.len() {
+            continue;
+        }
+        for chunk in rows.chunks(50) {
+            let sql = format!(
+                "INSERT INTO {} VALUES {}",
+                spec.name,
+                chunk.iter().map(|r| format!("({})", r.iter().map(|v| v.sql()).collect::<Vec<_>>().join(", "))).collect::<Vec<_>>().join(", ")
+            );
+            match vcore::catch(|| db.exec(&sql)) {
+                Ok(Exec::Err(e)) => {
+                    out.set_fail(format!("{}|outcome|valid_statement_rejected|INSERT|prefill", cfg.prop), format!("pre-load of {} rows into {} ({}) -> {}", rows.len(), spec.name, Model::create_sql(&model.tables[ti]).join("; "), e));
+                    return (out, info);
+                }
+                Err(p) => {
+                    out.set_fail(format!("{}|panic|{}|prefill", cfg.prop, vcore::panic_signature(&p).replace("panic|", "")), format!("pre-load of {} panicked at {}:{}: {}", spec.name, p.file, p.line, p.message));
+                    return (out, info);
+                }
+                _ => {}
+            }
+        }
+        log.push(format!("-- {} rows pre-loaded into {}", rows.len(), spec.name));
+        model.tables[ti].rows.extend(rows);
+        model.tables[ti].ever_had_rows = true;
+        prefilled = true;
+        out.add_class(if spec.prefill >= 300 { "prefill:600" } else { "prefill:70" });
+    }
     let need_obs = cfg.oracles.fail_no_effect || cfg.oracles.rollback || cfg.oracles.lifecycle || cfg.oracles.auto_inc;
     // C12: per table, the largest value the AUTO_INCREMENT column has ever been observed to hold,
     // and what happened since the last generated id
@@ -113,12 +144,16 @@ pub fn run_history(cfg: &RunCfg, h: &History) -> (Outcome, RunInfo) {
     // their tag is part of every later signature of the history ("sticky")
     const STICKY: [&str; 4] = ["rename_indexed_column", "drop_column_with_rows", "truncate_table_with_rows", "add_column_to_table_with_rows"];
     let mut sticky: Vec<&'static str> = Vec::new();
+    if prefilled {
+        sticky.push("multi_page_table");
+    }
 
     macro_rules! fail {
         ($facet:expr, $r:expr, $detail:expr) => {{
             let mut all_tags: Vec<&'static str> = $r.tags.clone();
             all_tags.extend(sticky.iter().copied());
-            let tail: Vec<String> = log.iter().rev().take(12).rev().cloned().map(|s| if s.len() > 160 { let mut c = 160; while !s.is_char_boundary(c) { c -= 1; } format!("{}…", &s[..c]) } else { s }).collect();
+            let keep = if std::env::var("VERIF_DEV_FULL_LOG").is_ok() { 10_000 } else { 12 };
+            let tail: Vec<String> = log.iter().rev().take(keep).rev().cloned().map(|s| if s.len() > 160 { let mut c = 160; while !s.is_char_boundary(c) { c -= 1; } format!("{}…", &s[..c]) } else { s }).collect();
             out.set_fail(
                 format!("{}|{}|{}|{}", cfg.prop, $facet, $r.kind, tagstr(&all_tags)),
                 format!("{}\n  last statements:\n    {}", $detail, tail.join("\n    ")),
